@@ -13,6 +13,7 @@ case kinds
   {"kind": "balstr", "rsmis": [..]}                                            rsmi_balance_check at string level (split, formula ==, ValueError)
   {"kind": "equiv", "rsmis": [..], "method": "RC"|"ITS"}                       AAMValidator.check_equivariant_graph on the graphs of the strings
   {"kind": "remap", "rsmi": r, "pvars": [[(new, old)..]..], "lvars": [[old..]..]}  CanonRSMI.remap_graph (both forms, error cases), get_aam_pairwise_indices
+  {"kind": "normcore", "rsmi": r, "fix": b}                                    NormalizeAAM.fit: the graphs and the hydrogen list captured inside the call
   {"kind": "records", "input": {str|list|other}, "col": c}                     BalanceReactionCheck.parse_input / dicts_balance_check on records
   {"kind": "validate", "rows": [{gt, x, y, z}], "cols": [..], "method", "ia", "taut", "call", "df", "n_jobs"}  AAMValidator.validate_smiles: per column
         results / count / n; oracle: every entry point (batch, check_pair keywords, direct) agrees for every flag combination
@@ -33,7 +34,7 @@ from ..tok import S
 
 PID = "C09"
 COQ_HEADER = ("From Coq Require Import String.\nFrom Coq Require Import List NArith ZArith.\n"
-              "From SK Require Import lib.Tok lib.LGraph lib.StrJoin model.C01_Model model.C02_Model model.C09_Model model.C09_Strings model.C09_State model.C09_Helpers model.C09_Records.\n"
+              "From SK Require Import lib.Tok lib.LGraph lib.StrJoin model.C01_Model model.C02_Model model.C09_Model model.C09_Strings model.C09_State model.C09_Helpers model.C09_Records model.C09_Normalize.\n"
               "Import ListNotations.\nOpen Scope Z_scope.\n")
 SHARD = 24
 IMPL_TIMEOUT = 1500
@@ -265,7 +266,7 @@ def _hist_terms(case):
                 ctor[st["obj"]] = st
             elif op == "mutate":
                 last.pop(st["obj"], None)
-            elif op == "check" and st.get("api") != "taut":
+            elif op == "check":
                 gs = [_valid_graphs(st["m"]), _valid_graphs(st["t"])]
                 if any(g is not None and not _simple(*g) for g in gs):
                     continue
@@ -279,7 +280,22 @@ def _hist_terms(case):
                 opt = lambda gh: "None" if gh is None else "(Some (%s, %s))" % (E.coq_mgraph(E.from_nx(gh[0])), E.coq_mgraph(E.from_nx(gh[1])))
                 ia = "true" if st.get("ia") and not default else "false"
                 # the method string is dispatched by the MODEL (check_method.upper() == "RC"); unreadable strings -> None -> False
-                out.append((i, "tbool (smiles_check_full %s %s %s %s)" % (ST.cbytes(meth), ia, opt(gs[0]), opt(gs[1]))))
+                if st.get("api") == "taut":
+                    # check_pair(..., ignore_tautomers=False): the tautomers of the ground truth (RDKit, through the library's helper) are
+                    # an oracle input of the model
+                    from synkit.Chem.utils import enumerate_tautomers
+                    try:
+                        ts = enumerate_tautomers(st["t"])
+                    except Exception:
+                        ts = None
+                    tgs = None if ts is None else [_valid_graphs(t) for t in ts]
+                    if tgs is not None and (any(g is not None and not _simple(*g) for g in tgs)
+                                            or (not rc and not _its_in_domain([g for g in tgs if g is not None] or [gs[0] or gs[1]]))):
+                        continue
+                    tl = "None" if tgs is None else "(Some [%s])" % "; ".join(opt(g) for g in tgs)
+                    out.append((i, "topt tbool (check_pair %s %s false %s %s %s)" % (ST.cbytes(meth), ia, opt(gs[0]), opt(gs[1]), tl)))
+                else:
+                    out.append((i, "tbool (smiles_check_full %s %s %s %s)" % (ST.cbytes(meth), ia, opt(gs[0]), opt(gs[1]))))
             elif op == "canon":
                 c = ctor[st["obj"]]
                 t = _canon_term(st["rsmi"], c["backend"], c.get("wl_iterations", 3), tuple(c.get("node_attrs", DEFAULT_ATTRS)), state=True)
@@ -411,6 +427,15 @@ def impl(case):
         return ST.balstr_impl(case)
     if k == "equiv":
         return ST.equiv_impl(case)
+    if k == "normcore":
+        try:
+            _, rec = ST.normalize_capture(case["rsmi"], case.get("fix", True))
+        except Exception as e:
+            return ["raises", type(e).__name__]
+        if rec["graphs"] is None or rec["graphs"][0] is None or rec["graphs"][1] is None or len(rec["ih"]) != 2:
+            return ["no-graphs"]
+        (p1, g1), (p2, g2) = rec["ih"]
+        return [S(sorted(set(p1))), E.obs_mgraph(g1), E.obs_mgraph(g2)] if sorted(p1) == sorted(p2) else ["lists-differ", p1, p2]
     if k == "records":
         return ST.records_impl(case)
     if k == "remap":
@@ -520,6 +545,15 @@ def coq_case(case):
             return ST.expand_term(case["rsmi"])
         if k == "balstr":
             return ST.balstr_term(case)
+        if k == "normcore":
+            try:
+                _, rec = ST.normalize_capture(case["rsmi"], case.get("fix", True))
+            except Exception:
+                return None
+            gh = rec["graphs"]
+            if gh is None or gh[0] is None or gh[1] is None or not _ascii_elems(*gh) or not _simple(*gh):
+                return None
+            return "run_normalize %s %s" % (E.coq_mgraph(E.from_nx(gh[0])), E.coq_mgraph(E.from_nx(gh[1])))
         if k == "records":
             return ST.records_term(case)
         if k == "remap":
@@ -944,7 +978,7 @@ def oracle(case):
         return _oracle_balstr(case)
     if k == "validate":
         return _oracle_validate(case)
-    if k == "fixaam":
+    if k in ("fixaam", "normcore"):
         return _oracle_norm(case)
     if k.startswith("hist-"):
         return _oracle_hist(case)
@@ -990,6 +1024,8 @@ def nontrivial(case, obs):
         return isinstance(obs, list) and len(obs) == 4
     if k == "records":
         return isinstance(obs, list) and len(obs) == 2 and obs[1] != [-1]
+    if k == "normcore":
+        return isinstance(obs, list) and len(obs) == 3
     return (k == "std" and bool(case.get("variants"))) or k == "norm"
 
 
@@ -1019,7 +1055,7 @@ def distribution(cases, obss):
             if c["backend"] == "nauty" and n > NAUTY_MAX_ATOMS:
                 outside["nauty_too_big"] += 1
     d["outside_model_bounds"] = outside
-    d["string_level"] = {kk: sum(1 for c in cases if c["kind"] == kk) for kk in ("std", "expand", "equiv", "balstr", "fixaam", "norm", "subgraph", "validate", "remap", "records")}
+    d["string_level"] = {kk: sum(1 for c in cases if c["kind"] == kk) for kk in ("std", "expand", "equiv", "balstr", "fixaam", "norm", "subgraph", "validate", "remap", "records", "normcore")}
     d["std_strings"] = sum(1 + len(c.get("variants", [])) for c in cases if c["kind"] == "std")
     d["expand_unmapped_atoms"] = {}
     for c, o in zip(cases, obss):
@@ -1217,6 +1253,11 @@ def gen_histories(tier, rng, corp):
                                  chk(PB[1], PB[0], "Rc", False, "kw"), chk(PB[0], PB[1], "its", False, "inst"), chk(PB[0], PB[1], "foo", False, "pair"),
                                  chk(PB[0], PB[1], "", False, "kw"), chk(PB[0], PB[1], "rC", True, "batch"), chk(PB[0], PB[1], "RC ", False, "df"),
                                  chk(PB[1], PB[0], "RC", False, "default"), chk(PB[0], PB[1], "rc", False, "equiv")], "method-spelling"))
+    # the tautomer workflow and ignore_aromaticity on inputs where they discriminate, interleaved with the plain calls on the same strings
+    cases.append(_hist("valid", [chk(ESTER[2], ESTER[0], "RC", False, "pos"), chk(ESTER[2], ESTER[0], "RC", False, "taut"), chk(ESTER[2], ESTER[0], "RC", False, "pair"),
+                                 chk(ESTER[1], ESTER[0], "ITS", True, "taut"), chk(ESTER[2], ESTER[0], "ITS", False, "taut"), chk(ESTER[2], ESTER[0], "ITS", False, "batch"),
+                                 chk(AROM_PAIR[1], AROM_PAIR[0], "RC", False, "taut"), chk(AROM_PAIR[1], AROM_PAIR[0], "RC", True, "taut"),
+                                 chk(AROM_PAIR[1], AROM_PAIR[0], "RC", True, "kw"), chk(AROM_PAIR[1], AROM_PAIR[0], "RC", False, "df")], "flags"))
     for k in range(0, len(DEGENERATE), 3):
         steps = []
         for d in DEGENERATE[k:k + 3]:
@@ -1396,6 +1437,12 @@ def gen_cases(tier, rng):
     chosen = (rng.sample(us, 6) + rng.sample(ec, 6)) if q else corp
     for n_, (s, i, r) in enumerate(chosen):
         cases.append(dict(kind="norm" if (q and n_ % 2) else "fixaam", rsmi=r, src="%s#%d" % (s, i)))
+        # the graph-level core of NormalizeAAM.fit (graphs captured inside the call), also on the explicit-hydrogen rewriting
+        if not q or n_ % 2 == 0:
+            cases.append(dict(kind="normcore", rsmi=r, fix=bool(n_ % 4), src="%s#%d" % (s, i)))
+            v = G9.add_explicit_h(r, rng)
+            if v:
+                cases.append(dict(kind="normcore", rsmi=v, fix=True, src="%s#%d" % (s, i)))
         if not q:
             cases.append(dict(kind="norm", rsmi=r, src="%s#%d" % (s, i)))
         if not q or rng.random() < 0.3:
